@@ -11,6 +11,7 @@ import Morlock.Driver.Bernstein
 import Morlock.Driver.Book
 import Morlock.Driver.Sargon
 import Morlock.Driver.Turochamp
+import Morlock.Driver.EngineCfg
 open Morlock.Driver in
 def dispatchPure (toks : List String) : String :=
   match toks with
@@ -20,6 +21,7 @@ def dispatchPure (toks : List String) : String :=
   | "limits" :: args => limitsOp args
   | "tt" :: args => ttOp args
   | "flt" :: args => fltOp args
+  | "engcfg" :: args => engCfgOp args
   | "published" :: _ => "ok ## ok"   -- the harness compared the implementation with a published constant
   | _ => "bad-op"
 
